@@ -94,6 +94,20 @@ def _run_job(args):
     except BaseException as e:  # noqa: BLE001 — ShimGap/Budget are BaseExceptions by design
         res = {"status": "error", "detail": f"{type(e).__name__}: {e}",
                "trace": traceback.format_exc()[-3000:]}
+        if type(e).__name__ == "ShimGap":
+            # the encoding could not follow the code (e.g. it now calls a routine the shim does not model).  Before this is
+            # reported as a harness error, the obligation's definitional replay is run on the real code: a violation it
+            # confirms is a violation (found by the replay oracle, not by a solver model - labelled as such); otherwise the
+            # harness error stands.
+            try:
+                rv = mod.replay(job["ob"], dict(job.get("cfg", {})), {})
+                if rv and rv[0]:
+                    res = {"status": "cex", "obligations": 1, "discharged": 0, "inconclusive": 0, "reach": True, "paths": 0, "queries": 0,
+                           "solver_s": 0.0, "sample": {"label": "encoding gap; definitional replay on the real code", "verdict": "n/a"},
+                           "cex": [{"inputs": {}, "reproduced": True, "key": "shim-gap-replay",
+                                    "detail": f"encoding gap ({e}); the definitional replay on the real code fails: {rv[1]}"}]}
+            except BaseException:  # noqa: BLE001
+                pass
     try:
         signal.alarm(0)
     except (ValueError, AttributeError):
